@@ -50,8 +50,8 @@ META = {
 
 OPS_C16 = (['create'] * 8 + ['get'] * 4 + ['select'] * 7 + ['read'] * 6 + ['setattr'] * 18 + ['set'] * 12 +
            ['syncupdate'] * 8 + ['sync'] * 8 + ['expire'] * 7 + ['expireall'] * 2 + ['expireallcls'] * 1 +
-           ['destroy'] * 4 + ['pickle'] * 5 + ['drop'] * 1 + ['oobupdate'] * 2 + ['oobdelete'] * 1 + ['deletemany'] * 1 + ['unpickle'] * 4)
-W_C16 = {'ops': OPS_C16, 'classes': [1, 1, 1, 1, 1, 5, 5, 5, 3, 0, 0, 2, 4, 7, 9, 9, 8]}
+           ['destroy'] * 4 + ['pickle'] * 5 + ['drop'] * 1 + ['oobupdate'] * 2 + ['oobdelete'] * 1 + ['deletemany'] * 1 + ['unpickle'] * 4 + ['iter'] * 1 + ['next'] * 3 + ['readfk'] * 6)
+W_C16 = {'ops': OPS_C16, 'classes': [1, 1, 1, 1, 1, 5, 5, 5, 3, 0, 0, 2, 4, 7, 9, 9, 8, 12, 13, 13, 13, 10, 11]}
 
 
 def run(ctx):
